@@ -42,6 +42,7 @@ type Prog struct {
 	keepOpaque  map[*ssa.Function]bool
 	havoc       bool
 	pureMemo    map[*ssa.Function]int
+	strTables   map[interface{}]*strTable
 	exitCache   map[*ssa.Function]relSet
 	srcFuncs    []*ssa.Function // all functions (incl. anonymous) with source in repo packages
 	recognisers map[*ssa.Function]bool
